@@ -90,6 +90,8 @@ pub struct TaskRec {
     pub submitted_epoch: u64,
     /// index of the event loop the join handle waits on (rt scenario)
     pub handle_loop: usize,
+    /// submit returned Ok before anybody asked for a stop
+    pub accepted_before_stop: bool,
 }
 
 pub static RECS: StdMutex<Vec<TaskRec>> = StdMutex::new(Vec::new());
@@ -252,8 +254,33 @@ fn gen_pool(g: &mut Rng, tier: Tier) -> J {
         }
     }
     let late_submit = g.chance(1, 4);
+    // directed modes: stop at an arbitrary moment with work still queued; cancel a task that is
+    // parked in a delay while another one computes on the same thread
+    let mode = if ordered_mode { "normal" } else { *g.pick(&["normal", "normal", "early_stop", "cancel_parked"]) };
+    let mut max = max;
+    if mode == "cancel_parked" {
+        max = max.max(2);
+        let a = tasks.len();
+        tasks.push(obj! {"name" => format!("task-{a}"), "steps" => J::Arr(vec![J::Arr(vec!["delay".into(), (*g.pick(&[12_000_000u64, 30_000_000])).into()])]), "panics" => false, "prio" => 0});
+        let mut ops = vec![J::Arr(vec!["submit".into(), a.into()])];
+        for k in 0..g.range(1, 3) as usize {
+            let b = a + 1 + k;
+            let mut steps = Vec::new();
+            for _ in 0..g.range(10, 30) {
+                steps.push(J::Arr(vec!["work".into(), 1_000_000u64.into()]));
+            }
+            tasks.push(obj! {"name" => format!("task-{b}"), "steps" => J::Arr(steps), "panics" => false, "prio" => 0});
+            ops.push(J::Arr(vec!["submit".into(), b.into()]));
+        }
+        ops.push(J::Arr(vec!["sleep".into(), (*g.pick(&[2_000_000u64, 5_000_000, 9_000_000, 15_000_000])).into()]));
+        ops.push(J::Arr(vec!["cancel".into(), a.into()]));
+        ops.push(J::Arr(vec!["wait".into(), (a + 1).into(), 5_000u64.into()]));
+        users.push(ops);
+    }
     obj! {
-        "min" => if ordered_mode { 0 } else { min },
+        "mode" => mode,
+        "stop_after_passes" => g.below(4),
+        "min" => if ordered_mode { 0 } else { min.min(max) },
         "max" => if ordered_mode { 1 } else { max },
         "keep_alive_ns" => *g.pick(&[0u64, 1_000_000, 1_000_000_000]),
         "ordered_mode" => ordered_mode,
@@ -346,6 +373,7 @@ fn body_pool(plan: &J) {
                         let r = pool.submit_task(Some(t.gs("name").to_string()), body, None, Some(t.gi("prio") as i64));
                         let mut rr = recs();
                         rr[ti].submit_ok = Some(r.is_ok());
+                        rr[ti].accepted_before_stop = r.is_ok() && !STOP_SEEN.load(SeqCst);
                         rr[ti].submitted_epoch = PASS_EPOCH.load(SeqCst);
                         rr[ti].submit_began_after_stop_seen = after_stop;
                         if let Ok(id) = r {
@@ -413,6 +441,8 @@ fn body_pool(plan: &J) {
     let budget = plan.gu("pass_budget_ns").max(100_000);
     let gap = plan.gu("pass_gap_ns");
     let late = plan.gb("late_submit");
+    let early_stop = plan.gs("mode") == "early_stop";
+    let stop_after = plan.gu("stop_after_passes");
     let tasks2 = tasks.clone();
     let done2 = users_done.clone();
     let owner = vstd::thread::spawn(move || {
@@ -429,7 +459,13 @@ fn body_pool(plan: &J) {
             }
         }
         let mut quiet_since: Option<u64> = None;
+        let mut passes = 0u64;
         loop {
+            if early_stop && passes >= stop_after {
+                probe("pool.early-stop");
+                break;
+            }
+            passes += 1;
             _ = PASS_EPOCH.fetch_add(1, SeqCst);
             IN_PASS.store(true, SeqCst);
             let r = pool.try_timed_schedule_task(Duration::from_nanos(budget));
@@ -512,12 +548,12 @@ fn body_pool(plan: &J) {
         // every accepted task ran or was cancelled
         let r = recs();
         for (i, t) in r.iter().enumerate() {
-            if t.submit_ok == Some(true) && !t.cancelled_any && t.starts == 0 {
-                let msg = format!("stop() reported success but task {i}, accepted earlier and never cancelled, was never executed");
+            if t.accepted_before_stop && !t.cancelled_any && t.starts == 0 {
+                let msg = format!("stop() reported success but task {i}, accepted before stop was called and never cancelled, was never executed");
                 drop(r);
                 fail("accepted-task-dropped", msg);
             }
-            if t.submit_ok == Some(true) && !t.cancelled_any && !t.finished {
+            if t.accepted_before_stop && !t.cancelled_any && !t.finished {
                 let msg = format!("stop() reported success but task {i} had started and not finished");
                 drop(r);
                 fail("accepted-task-dropped", msg);
@@ -612,7 +648,7 @@ fn body_pool(plan: &J) {
     }
     // C13: tasks that nobody cancelled ran exactly once (ran-twice is checked online)
     for (i, t) in r.iter().enumerate() {
-        if t.submit_ok == Some(true) && !t.cancelled_any && (t.starts != 1 || !t.finished) {
+        if t.accepted_before_stop && !t.cancelled_any && (t.starts != 1 || !t.finished) {
             fail("task-lost", format!("task {i} (accepted, never cancelled): starts {}, finished {}", t.starts, t.finished));
         }
     }
@@ -715,12 +751,44 @@ fn gen_rt(g: &mut Rng, tier: Tier) -> J {
             users[u].push(J::Arr(vec!["drop".into(), i.into()]));
         }
     }
-    let max = *g.pick(&[1u64, 2, 4, 16, 65536]);
+    let mut max = *g.pick(&[1u64, 2, 4, 16, 65536]);
+    let mode = *g.pick(&["normal", "normal", "normal", "early_stop", "cancel_parked"]);
+    let mut loops = loops;
+    if mode == "cancel_parked" {
+        // one loop, so that the parked task and the computing ones share a thread
+        loops = 1;
+        max = max.max(2);
+        let a = tasks.len();
+        tasks.push(obj! {"name" => format!("task-{a}"), "steps" => J::Arr(vec![J::Arr(vec![(*g.pick(&["delay", "hsleep"])).into(), (*g.pick(&[12_000_000u64, 30_000_000])).into()])]), "panics" => false, "prio" => 0});
+        if let Some(t) = tasks.last_mut() {
+            // hsleep takes microseconds
+            let st = t.ga("steps")[0].arr().to_vec();
+            if st[0].s() == "hsleep" {
+                t.set("steps", J::Arr(vec![J::Arr(vec!["hsleep".into(), (st[1].u() / 1000).into()])]));
+            }
+        }
+        let mut ops = vec![J::Arr(vec!["submit".into(), a.into()])];
+        for k in 0..g.range(1, 3) as usize {
+            let b = a + 1 + k;
+            let mut steps = Vec::new();
+            for _ in 0..g.range(10, 30) {
+                steps.push(J::Arr(vec!["work".into(), 1_000_000u64.into()]));
+            }
+            tasks.push(obj! {"name" => format!("task-{b}"), "steps" => J::Arr(steps), "panics" => false, "prio" => 0});
+            ops.push(J::Arr(vec!["submit".into(), b.into()]));
+        }
+        ops.push(J::Arr(vec!["sleep".into(), (*g.pick(&[12_000_000u64, 15_000_000, 19_000_000, 25_000_000])).into()]));
+        ops.push(J::Arr(vec!["cancel".into(), a.into()]));
+        ops.push(J::Arr(vec!["wait".into(), (a + 1).into(), 5_000u64.into()]));
+        users.push(ops);
+    }
     let mut sim = gen_sim(g, SimOpts { max_points: 5_000_000, max_sim_ms: 120_000, stall: true, spurious: true, late_signals: true, ..SimOpts::default() });
     if let Some(k) = sim.get_mut("knobs") {
         k.set("num_cpus", g.range(loops, 4).into());
     }
     obj! {
+        "mode" => mode,
+        "stop_after_ms" => *g.pick(&[0u64, 1, 5, 12, 30, 80]),
         "loops" => loops,
         "min" => *g.pick(&[0u64, 0, 0, 1, 2]).min(&max),
         "max" => max,
@@ -806,6 +874,7 @@ fn body_rt(plan: &J) {
                             .unwrap_or(usize::MAX);
                         let mut rr = recs();
                         rr[ti].submit_ok = Some(ok);
+                        rr[ti].accepted_before_stop = ok && !STOP_SEEN.load(SeqCst);
                         rr[ti].handle_loop = hl;
                         if ok && h.id().ok() != Some(rr[ti].id) {
                             drop(rr);
@@ -867,7 +936,12 @@ fn body_rt(plan: &J) {
     // ---- wait until the users are done or parked, then a quiet period of 2 s
     crate::child::set_stuck_limit_ns(5_000_000_000);
     let t_begin = now();
-    loop {
+    let early_stop = plan.gs("mode") == "early_stop";
+    if early_stop {
+        probe("rt.early-stop");
+        vstd::thread::sleep(Duration::from_millis(plan.gu("stop_after_ms")));
+    }
+    while !early_stop {
         vstd::thread::sleep(Duration::from_millis(5));
         // stop only when every user has finished its list, or is parked in an untimed join (which
         // only the stop can end), or after a long horizon
@@ -876,12 +950,14 @@ fn body_rt(plan: &J) {
             break;
         }
     }
-    vstd::thread::sleep(Duration::from_secs(2));
+    if !early_stop {
+        vstd::thread::sleep(Duration::from_secs(2));
+    }
     // C01: every accepted task that nobody cancelled has run exactly once by now
     {
         let r = recs();
         for (i, t) in r.iter().enumerate() {
-            if t.submit_ok == Some(true) && !t.cancelled_any && (t.starts != 1 || !t.finished) {
+            if !early_stop && t.submit_ok == Some(true) && !t.cancelled_any && (t.starts != 1 || !t.finished) {
                 let stats = EventLoops::verif_loop_stats();
                 let msg = format!(
                     "task {i} (accepted, never cancelled) has starts={} finished={} two simulated seconds after the last submission, while the runtime keeps scheduling; loops (state, workers, queue empty): {stats:?}",
@@ -921,8 +997,8 @@ fn body_rt(plan: &J) {
     {
         let r = recs();
         for (i, t) in r.iter().enumerate() {
-            if t.submit_ok == Some(true) && !t.cancelled_any && !t.finished {
-                let msg = format!("stop() reported success but task {i}, accepted earlier and never cancelled, did not run to its end (starts {})", t.starts);
+            if t.accepted_before_stop && !t.cancelled_any && !t.finished {
+                let msg = format!("stop() reported success but task {i}, accepted before stop was called and never cancelled, did not run to its end (starts {})", t.starts);
                 drop(r);
                 fail("accepted-task-dropped", msg);
             }
